@@ -236,6 +236,8 @@ int main(){
 				for(std::size_t d = 0; d + 1 < m; ++d){
 					if(!(P[i](d) < up(d))) ok = false;
 					if((int)d < split && low(d) < P[i](d)) ++below;
+					// objectives behind `split` have never been cut in a real run: regionLow is the minimum over all points there
+					if((int)d > split && P[i](d) < low(d)) ok = false;
 				}
 				if(below >= 2) ok = false;
 			}
